@@ -831,7 +831,15 @@ func (as *AbacoSource) distributePackets(allpackets []*packets.Packet, now time.
 		}
 
 		cidx := gIndex(p)
-		grp := as.groups[cidx]
+		grp, ok := as.groups[cidx]
+		if !ok {
+			// Not one of the channel groups found when the source was sampled: there are no channels
+			// (and no queue) for these data. Skip the packet instead of dereferencing a nil group.
+			if ProblemLogger != nil {
+				ProblemLogger.Printf("Abaco packet for unknown channel group %v ignored", cidx)
+			}
+			continue
+		}
 		grp.enqueuePacket(p, now)
 		// nextFrameNum is advanced by the block-assembly goroutine (distributeData) while this reader runs
 		grp.updateFrameTiming(p, FrameIndex(atomic.LoadInt64((*int64)(&as.nextFrameNum))))
